@@ -38,9 +38,10 @@
 (***************************************************************************)
 EXTENDS Naturals, Sequences, FiniteSets, TLC
 
-CONSTANTS Configs,     \* set of [proto, svc, kinds]: proto in {"h1","h2","h3"}, svc in {"speed","ping","tunnel"},
+CONSTANTS Configs,     \* set of [proto, svc, kinds]: proto in {"h1","h2","h3"}, svc in {"speed","ping","tunnel","rproxy"},
                        \* kinds = the kinds of the streams the client may open, in order: "dl" | "ul" (speedtest
-                       \* download / upload), "rq" (ping), "ct" (tunnelled TCP connection)
+                       \* download / upload), "rq" (ping), "ct" (tunnelled TCP connection), "rp" (reverse-proxy exchange whose
+                       \* origin has answered completely)
           MaxOthers,   \* other registered participants (each holds a guard until it finishes)
           FairSelect   \* BOOLEAN. FALSE: the notification branch of the session's select! has priority (the
                        \* intended design). TRUE: any ready branch may be taken - the code as it was; only the
@@ -52,6 +53,9 @@ VARIABLES
     gs,         \* codec wind-down: "none" | "goaway1" | "final" | "flush" | "closed"
     st,         \* stream k: "none" | "open" (in flight, stalled on the client) | "done" (delivered completely)
                 \*           | "refused" (opened in the GOAWAY window, discarded) | "cut" (ended by the close)
+                \*           | "held" (HTTP/1.1: the exchange is over at its source - download task / relay
+                \*             ended - and the codec holds the tail of the response for a client that
+                \*             does not read: download_pending and the one-slot channel, Http1Down.tla)
     told,       \* the client has been told: GOAWAY / end of the byte stream / CONNECTION_CLOSE
     eof,        \* the endpoint has closed the connection
     selfEnd,    \* the session's work future has finished by itself (ping answered, HTTP/1.1 exchange over)
@@ -61,11 +65,13 @@ VARIABLES
     others,     \* other participants that still hold a guard
     compl,      \* completion(): "none" | "waiting" | "returned"
     inflight,   \* history: the streams in flight when the wind-down began
+    byIdle,     \* the codec's wind-down was begun by the session's own idle timeout, INSIDE the work future
+                \* (listen_inner of the speedtest and reverse-proxy handlers) and that future is still alive
     listenerGone \* the listener (Core::listen, a participant of the same shutdown) has returned. For the
                 \* TCP protocols that is all; the QUIC multiplexer lives inside the listener and goes with
                 \* it: from then on the `listen()` of every HTTP/3 session fails (UnexpectedEof)
 
-vars == << cfg, ph, gs, st, told, eof, selfEnd, acked, submitted, guard, others, compl, inflight, listenerGone >>
+vars == << cfg, ph, gs, st, told, eof, selfEnd, acked, submitted, guard, others, compl, inflight, listenerGone, byIdle >>
 
 K == 1..Len(cfg.kinds)
 Open_ == {k \in K : st[k] = "open"}
@@ -74,19 +80,19 @@ TypeOK ==
     /\ cfg \in Configs
     /\ ph \in {"serve", "notified", "wind", "wound", "done"}
     /\ gs \in {"none", "goaway1", "final", "flush", "closed"}
-    /\ st \in [K -> {"none", "open", "done", "refused", "cut"}]
+    /\ st \in [K -> {"none", "open", "held", "done", "refused", "cut"}]
     /\ told \in BOOLEAN /\ eof \in BOOLEAN /\ selfEnd \in BOOLEAN /\ acked \in BOOLEAN
     /\ submitted \in BOOLEAN /\ guard \in BOOLEAN /\ others \in 0..MaxOthers
     /\ compl \in {"none", "waiting", "returned"}
     /\ inflight \subseteq K
-    /\ listenerGone \in BOOLEAN
+    /\ listenerGone \in BOOLEAN /\ byIdle \in BOOLEAN
 
 Init ==
     /\ cfg \in Configs
     /\ ph = "serve" /\ gs = "none" /\ st = [k \in 1..Len(cfg.kinds) |-> "none"]
     /\ told = FALSE /\ eof = FALSE /\ selfEnd = FALSE /\ acked = FALSE
     /\ submitted = FALSE /\ guard = TRUE /\ others \in 0..MaxOthers /\ compl = "none" /\ inflight = {}
-    /\ listenerGone = FALSE
+    /\ listenerGone = FALSE /\ byIdle = FALSE
 
 -----------------------------------------------------------------------------
 (* the session *)
@@ -95,61 +101,78 @@ Init ==
 Notice ==
     /\ ph = "serve" /\ submitted /\ ~selfEnd
     /\ ph' = "notified"
-    /\ UNCHANGED << listenerGone, cfg, gs, st, told, eof, selfEnd, acked, submitted, guard, others, compl, inflight >>
+    /\ UNCHANGED << byIdle, listenerGone, cfg, gs, st, told, eof, selfEnd, acked, submitted, guard, others, compl, inflight >>
 
 CutOpen == [k \in K |-> IF st[k] = "open" THEN "cut" ELSE st[k]]
 
-\* codec.graceful_shutdown() is entered (after the notification, or because the work is over)
-WindBegin ==
-    /\ ph = "notified" \/ (ph = "serve" /\ selfEnd)
-    /\ ph' = "wind" /\ inflight' = Open_
+Held_ == {k \in K : st[k] = "held"}
+DownloadLike(k) == cfg.kinds[k] \in {"dl", "rp"}
+
+\* the first step of the codec's graceful_shutdown, whoever calls it
+CodecBegin ==
+    /\ inflight' = Open_ \cup Held_
     /\ CASE cfg.proto = "h2" ->      \* H2Goaway: GOAWAY(2^31-1) + PING
                 /\ gs' = "goaway1" /\ told' = TRUE /\ UNCHANGED << st, eof >>
          [] cfg.proto = "h1" ->
-                IF \E k \in Open_ : cfg.kinds[k] = "dl"
-                THEN \* H1Flush: the chunk in the codec's hands waits for the client to read
+                IF Held_ # {} \/ \E k \in Open_ : DownloadLike(k)
+                THEN \* H1Flush: what the codec holds waits for the client to read
                      /\ gs' = "flush" /\ UNCHANGED << st, told, eof >>
                 ELSE \* H1FlushClose: nothing is held back; an upload in flight ends with the close
                      /\ gs' = "closed" /\ st' = CutOpen /\ told' = TRUE /\ eof' = TRUE
          [] cfg.proto = "h3" ->      \* H3Close: FIN on the streams, CONNECTION_CLOSE(application, 0)
                 /\ gs' = "closed" /\ st' = CutOpen /\ told' = TRUE /\ eof' = TRUE
+
+\* codec.graceful_shutdown() is entered by the handler (after the notification, or because the work is over)
+WindBegin ==
+    /\ ph = "notified" \/ (ph = "serve" /\ selfEnd)
+    /\ ph' = "wind" /\ byIdle' = FALSE
+    /\ CodecBegin
     /\ UNCHANGED << listenerGone, cfg, selfEnd, acked, submitted, guard, others, compl >>
+
+\* The notification arrives while the idle wind-down is in progress inside the work future (a blocked
+\* flush, a GOAWAY not yet acknowledged): select! drops that future in the middle of it. What the
+\* wind-down has reached lives in the codec, and the handler's own graceful_shutdown RESUMES it - the
+\* session is not finished because "a shutdown was already under way".
+ResumeWind ==
+    /\ ph = "wind" /\ byIdle /\ submitted /\ gs # "closed"
+    /\ byIdle' = FALSE
+    /\ UNCHANGED << listenerGone, cfg, ph, gs, st, told, eof, selfEnd, acked, submitted, guard, others, compl, inflight >>
 
 \* the PING came back: the client has seen the first GOAWAY; the final GOAWAY names the last stream
 H2Final ==
     /\ cfg.proto = "h2" /\ gs = "goaway1" /\ acked
     /\ gs' = "final"
-    /\ UNCHANGED << listenerGone, cfg, ph, st, told, eof, selfEnd, acked, submitted, guard, others, compl, inflight >>
+    /\ UNCHANGED << byIdle, listenerGone, cfg, ph, st, told, eof, selfEnd, acked, submitted, guard, others, compl, inflight >>
 
 \* accept() returns None: only now - every stream that was in flight has run to its end
 H2Close ==
     /\ cfg.proto = "h2" /\ gs = "final" /\ Open_ = {}
     /\ gs' = "closed" /\ eof' = TRUE
-    /\ UNCHANGED << listenerGone, cfg, ph, st, told, selfEnd, acked, submitted, guard, others, compl, inflight >>
+    /\ UNCHANGED << byIdle, listenerGone, cfg, ph, st, told, selfEnd, acked, submitted, guard, others, compl, inflight >>
 
 \* graceful_shutdown() has returned
 WindEnd ==
     /\ ph = "wind" /\ gs = "closed"
     /\ ph' = "wound"
-    /\ UNCHANGED << listenerGone, cfg, gs, st, told, eof, selfEnd, acked, submitted, guard, others, compl, inflight >>
+    /\ UNCHANGED << byIdle, listenerGone, cfg, gs, st, told, eof, selfEnd, acked, submitted, guard, others, compl, inflight >>
 
 \* the handler returns: its locals - the guard among them - are dropped
 GuardRelease ==
     /\ ph = "wound"
     /\ ph' = "done" /\ guard' = FALSE
-    /\ UNCHANGED << listenerGone, cfg, gs, st, told, eof, selfEnd, acked, submitted, others, compl, inflight >>
+    /\ UNCHANGED << byIdle, listenerGone, cfg, gs, st, told, eof, selfEnd, acked, submitted, others, compl, inflight >>
 
 CompletionReturn ==
     /\ compl = "waiting" /\ ~guard /\ others = 0
     /\ compl' = "returned"
-    /\ UNCHANGED << listenerGone, cfg, ph, gs, st, told, eof, selfEnd, acked, submitted, guard, others, inflight >>
+    /\ UNCHANGED << byIdle, listenerGone, cfg, ph, gs, st, told, eof, selfEnd, acked, submitted, guard, others, inflight >>
 
 \* The listener observes the same notification and returns. The broadcast reaches every receiver at
 \* once, so whenever the listener is gone the session's own notification is already there.
 ListenerEnd ==
     /\ submitted /\ ~listenerGone
     /\ listenerGone' = TRUE
-    /\ UNCHANGED << cfg, ph, gs, st, told, eof, selfEnd, acked, submitted, guard, others, compl, inflight >>
+    /\ UNCHANGED << byIdle, cfg, ph, gs, st, told, eof, selfEnd, acked, submitted, guard, others, compl, inflight >>
 
 \* select!: the work branch, failed because the multiplexer is gone. The service handlers go on to
 \* graceful_shutdown whichever branch fired; Tunnel::listen returns the error - without a wind-down.
@@ -160,9 +183,9 @@ WorkFails ==
     /\ IF cfg.svc = "tunnel"
        THEN ph' = "done" /\ guard' = FALSE /\ UNCHANGED selfEnd
        ELSE selfEnd' = TRUE /\ UNCHANGED << ph, guard >>
-    /\ UNCHANGED << listenerGone, cfg, gs, st, told, eof, acked, submitted, others, compl, inflight >>
+    /\ UNCHANGED << byIdle, listenerGone, cfg, gs, st, told, eof, acked, submitted, others, compl, inflight >>
 
-Server == Notice \/ WindBegin \/ H2Final \/ H2Close \/ WindEnd \/ GuardRelease \/ CompletionReturn \/ ListenerEnd \/ WorkFails
+Server == Notice \/ WindBegin \/ ResumeWind \/ H2Final \/ H2Close \/ WindEnd \/ GuardRelease \/ CompletionReturn \/ ListenerEnd \/ WorkFails
 AtRest == ~ENABLED Server
 
 -----------------------------------------------------------------------------
@@ -171,19 +194,19 @@ AtRest == ~ENABLED Server
 Submit ==
     /\ AtRest /\ ~submitted
     /\ submitted' = TRUE
-    /\ UNCHANGED << listenerGone, cfg, ph, gs, st, told, eof, selfEnd, acked, guard, others, compl, inflight >>
+    /\ UNCHANGED << byIdle, listenerGone, cfg, ph, gs, st, told, eof, selfEnd, acked, guard, others, compl, inflight >>
 
 \* endpoint/src/main.rs: submit(), then completion().await
 CompletionBegin ==
     /\ AtRest /\ submitted /\ compl = "none"
     /\ compl' = "waiting"
-    /\ UNCHANGED << listenerGone, cfg, ph, gs, st, told, eof, selfEnd, acked, submitted, guard, others, inflight >>
+    /\ UNCHANGED << byIdle, listenerGone, cfg, ph, gs, st, told, eof, selfEnd, acked, submitted, guard, others, inflight >>
 
 \* another participant finishes (Shutdown.tla has the detail)
 OtherFinish ==
     /\ AtRest /\ others > 0
     /\ others' = others - 1
-    /\ UNCHANGED << listenerGone, cfg, ph, gs, st, told, eof, selfEnd, acked, submitted, guard, compl, inflight >>
+    /\ UNCHANGED << byIdle, listenerGone, cfg, ph, gs, st, told, eof, selfEnd, acked, submitted, guard, compl, inflight >>
 
 \* The client opens its next stream. While the session serves, the request is taken up: a speedtest
 \* transfer is in flight (and stalls on the client), a ping is answered and ends the session's work.
@@ -198,36 +221,67 @@ ClientOpen(k) ==
              ELSE st' = [st EXCEPT ![k] = "open"] /\ UNCHANGED selfEnd
        \/ /\ cfg.proto = "h2" /\ gs = "goaway1" /\ ~acked
           /\ st' = [st EXCEPT ![k] = "refused"] /\ UNCHANGED selfEnd
-    /\ UNCHANGED << listenerGone, cfg, ph, gs, told, eof, acked, submitted, guard, others, compl, inflight >>
+    /\ UNCHANGED << byIdle, listenerGone, cfg, ph, gs, told, eof, acked, submitted, guard, others, compl, inflight >>
 
 \* The client lets a stalled stream go on: the rest is delivered, END_STREAM included - whatever phase
 \* the session is in, as long as the connection stands. HTTP/1.1: one exchange per connection (the end of
 \* the response ends the session's work); during the wind-down the flush completes and the close follows -
 \* the rest of the download is not promised.
 ClientRelease(k) ==
-    /\ AtRest /\ ~eof /\ st[k] = "open"
+    /\ AtRest /\ ~eof /\ st[k] \in {"open", "held"}
+    /\ cfg.kinds[k] = "rp" => gs = "flush"     \* (a relayed exchange is let go only inside the wind-down: what ends it otherwise is the origin's business)
     /\ CASE cfg.proto = "h1" /\ gs = "flush" ->
-                /\ st' = [st EXCEPT ![k] = "cut"] /\ gs' = "closed" /\ told' = TRUE /\ eof' = TRUE
+                \* the flush completes, the close follows: everything the codec HELD is delivered;
+                \* of an exchange whose source was still producing, the rest is not promised
+                /\ st' = [st EXCEPT ![k] = IF st[k] = "held" THEN "done" ELSE "cut"]
+                /\ gs' = "closed" /\ told' = TRUE /\ eof' = TRUE
                 /\ UNCHANGED selfEnd
          [] cfg.proto = "h1" /\ gs # "flush" ->
                 /\ st' = [st EXCEPT ![k] = "done"] /\ selfEnd' = TRUE /\ UNCHANGED << gs, told, eof >>
          [] OTHER ->
                 /\ st' = [st EXCEPT ![k] = "done"] /\ UNCHANGED << gs, told, eof, selfEnd >>
-    /\ UNCHANGED << listenerGone, cfg, ph, acked, submitted, guard, others, compl, inflight >>
+    /\ UNCHANGED << byIdle, listenerGone, cfg, ph, acked, submitted, guard, others, compl, inflight >>
+
+\* HTTP/1.1: the client reads until the source of the exchange has handed everything to the codec and
+\* stops before the end: the exchange is over for the handler, its tail is in the codec's hands
+ClientReadMost(k) ==
+    /\ AtRest /\ ~eof /\ cfg.proto = "h1" /\ st[k] = "open" /\ cfg.kinds[k] = "dl" /\ ph = "serve"
+    /\ st' = [st EXCEPT ![k] = "held"]
+    /\ UNCHANGED << byIdle, listenerGone, cfg, ph, gs, told, eof, selfEnd, acked, submitted, guard, others, compl, inflight >>
+
+\* Time passes while the session serves nothing: the relay of a reverse-proxy exchange whose origin has
+\* answered ends on its own timeout (its tail stays with the codec), and the idle timeout of the session
+\* (speedtest: `timeout`, reverse proxy: connection_establishment_timeout) fires: listen_inner calls
+\* codec.graceful_shutdown() itself - a wind-down begun for another reason than a shutdown. A speedtest
+\* transfer in flight keeps the session from being idle.
+IdleTimeout ==
+    /\ AtRest /\ ~eof /\ ph = "serve" /\ ~selfEnd
+    /\ cfg.svc \in {"speed", "rproxy"} /\ cfg.proto \in {"h1", "h2"}
+    /\ \A k \in Open_ : cfg.kinds[k] = "rp"
+    /\ ph' = "wind" /\ byIdle' = TRUE
+    /\ LET st1 == [k \in K |-> IF st[k] = "open" THEN "held" ELSE st[k]] IN
+       /\ inflight' = {k \in K : st1[k] = "held"}
+       /\ IF cfg.proto = "h2"
+          THEN gs' = "goaway1" /\ told' = TRUE /\ st' = st1 /\ UNCHANGED eof
+          ELSE IF \E k \in K : st1[k] = "held"
+               THEN gs' = "flush" /\ st' = st1 /\ UNCHANGED << told, eof >>
+               ELSE gs' = "closed" /\ st' = st1 /\ told' = TRUE /\ eof' = TRUE
+    /\ UNCHANGED << listenerGone, cfg, selfEnd, acked, submitted, guard, others, compl >>
 
 ClientAckPing ==
     /\ AtRest /\ cfg.proto = "h2" /\ gs = "goaway1" /\ ~acked
     /\ acked' = TRUE
-    /\ UNCHANGED << listenerGone, cfg, ph, gs, st, told, eof, selfEnd, submitted, guard, others, compl, inflight >>
+    /\ UNCHANGED << byIdle, listenerGone, cfg, ph, gs, st, told, eof, selfEnd, submitted, guard, others, compl, inflight >>
 
 ClientOpens == \E k \in K : ClientOpen(k)
 ClientReleases == \E k \in K : ClientRelease(k)
-Env == Submit \/ CompletionBegin \/ OtherFinish \/ ClientAckPing \/ ClientOpens \/ ClientReleases
+ClientReadsMost == \E k \in K : ClientReadMost(k)
+Env == Submit \/ CompletionBegin \/ OtherFinish \/ ClientAckPing \/ ClientOpens \/ ClientReleases \/ ClientReadsMost \/ IdleTimeout
 
 Next ==
-    \/ Notice \/ WindBegin \/ H2Final \/ H2Close \/ WindEnd \/ GuardRelease \/ CompletionReturn \/ ListenerEnd \/ WorkFails
+    \/ Notice \/ WindBegin \/ ResumeWind \/ H2Final \/ H2Close \/ WindEnd \/ GuardRelease \/ CompletionReturn \/ ListenerEnd \/ WorkFails
     \/ Submit \/ CompletionBegin \/ OtherFinish \/ ClientAckPing
-    \/ ClientOpens \/ ClientReleases
+    \/ ClientOpens \/ ClientReleases \/ ClientReadsMost \/ IdleTimeout
 Spec == Init /\ [][Next]_vars
 
 -----------------------------------------------------------------------------
@@ -249,7 +303,10 @@ CompletionNotEarly == compl = "returned" => ~guard /\ others = 0 /\ ph = "done" 
 \* a session that has wound down has told its client - also when it was idle
 ToldWhenWound == ph \in {"wound", "done"} => told /\ eof
 \* nothing is said or closed before there is a reason
-NotToldUnasked == told => submitted \/ selfEnd
+NotToldUnasked == told => ph # "serve"
+\* HTTP/1.1 "flush and close": what the codec held when the wind-down began - whoever began it, and whether or
+\* not a notification interrupted it - has been delivered when the session is done
+HeldDelivered == ph \in {"wound", "done"} => \A k \in K : st[k] # "held"
 \* ... and without hanging once all have finished: a behaviour in which the client has let every
 \* stream go and the other participants have finished cannot end with completion() waiting
 Terminal == ~ENABLED Next
